@@ -225,7 +225,13 @@ def eval_case(case):
     if case.get('metropolis') and 1e-9 <= p < 1 and not fails:
         from panqec.simulation import SplittingSimulation
         from panqec.decoders import BeliefPropagationOSDDecoder
-        dec = BeliefPropagationOSDDecoder(code, em, p, max_bp_iter=5, osd_order=0)
+        # the decoder's prior is an argument of its own: half of the cases
+        # decode with a prior model (and rate) other than the simulated noise
+        if case['rseed'] % 2:
+            dec = BeliefPropagationOSDDecoder(code, PauliErrorModel(0.4, 0.2, 0.4),
+                                              min(0.3, max(0.05, p / 2)), max_bp_iter=5, osd_order=0)
+        else:
+            dec = BeliefPropagationOSDDecoder(code, em, p, max_bp_iter=5, osd_order=0)
         sim = SplittingSimulation(code, em, [dec], [p], n_init_runs=1, verbose=False)
         np.random.seed(case['rseed'] % (2**32))
         prev = (rng.random(2 * n) < 0.3).astype(np.uint8)
